@@ -408,28 +408,45 @@ Proof.
     rewrite H1, H2. reflexivity.
 Qed.
 
-(* say_msg: text and audio URL are each the chain's choice; the message is skipped exactly when both are empty; the
-   language it reports is the one used for its TEXT *)
+(* say_msg, for any evaluation of the localized text: text and audio URL are each the chain's choice; the message is
+   skipped exactly when the evaluated text and the audio URL are both empty; the language it reports is the one used
+   for its TEXT, and for a message without text the one used for its audio URL (its attachment) *)
+Lemma say_msg_gen_spec ev cl allowed base txt audio trt tra :
+  exists outt usedt outa useda,
+    spec_pick cl allowed base [txt] trt outt usedt
+    /\ spec_pick cl allowed base [audio] tra outa useda
+    /\ (ev (hd [] outt) = [] -> hd [] outa = [] ->
+        say_msg_out_gen ev cl allowed base txt audio trt tra = None)
+    /\ (ev (hd [] outt) <> [] ->
+        say_msg_out_gen ev cl allowed base txt audio trt tra
+        = Some {| i_text := ev (hd [] outt); i_audio := hd [] outa; i_lang := usedt |})
+    /\ (ev (hd [] outt) = [] -> hd [] outa <> [] ->
+        say_msg_out_gen ev cl allowed base txt audio trt tra
+        = Some {| i_text := []; i_audio := hd [] outa; i_lang := useda |}).
+Proof.
+  unfold say_msg_out_gen.
+  destruct (get_text1_spec cl allowed base txt trt) as (outt & usedt & Ht & _ & Et).
+  destruct (get_text1_spec cl allowed base audio tra) as (outa & useda & Ha & _ & Ea).
+  exists outt, usedt, outa, useda. rewrite Et, Ea.
+  split; [exact Ht|]. split; [exact Ha|]. repeat split.
+  - intros H1 H2. rewrite H1, H2. reflexivity.
+  - intros H. apply text_empty_false_iff in H. rewrite H. reflexivity.
+  - intros H1 H2. rewrite H1. apply text_empty_false_iff in H2. rewrite H2. reflexivity.
+Qed.
+
 Lemma say_msg_spec cl allowed base txt audio trt tra :
   exists outt usedt outa useda,
     spec_pick cl allowed base [txt] trt outt usedt
     /\ spec_pick cl allowed base [audio] tra outa useda
     /\ (hd [] outt = [] -> hd [] outa = [] ->
         say_msg_out cl allowed base txt audio trt tra = None)
-    /\ ((hd [] outt <> [] \/ hd [] outa <> []) ->
+    /\ (hd [] outt <> [] ->
         say_msg_out cl allowed base txt audio trt tra
-        = Some {| i_text := hd [] outt; i_audio := hd [] outa; i_lang := usedt |}).
-Proof.
-  unfold say_msg_out.
-  destruct (get_text1_spec cl allowed base txt trt) as (outt & usedt & Ht & _ & Et).
-  destruct (get_text1_spec cl allowed base audio tra) as (outa & useda & Ha & _ & Ea).
-  exists outt, usedt, outa, useda. rewrite Et, Ea. cbn [fst].
-  split; [exact Ht|]. split; [exact Ha|]. split.
-  - intros H1 H2. rewrite H1, H2. reflexivity.
-  - intros [H|H]; apply text_empty_false_iff in H; rewrite H.
-    + reflexivity.
-    + rewrite Bool.andb_false_r. reflexivity.
-Qed.
+        = Some {| i_text := hd [] outt; i_audio := hd [] outa; i_lang := usedt |})
+    /\ (hd [] outt = [] -> hd [] outa <> [] ->
+        say_msg_out cl allowed base txt audio trt tra
+        = Some {| i_text := []; i_audio := hd [] outa; i_lang := useda |}).
+Proof. exact (say_msg_gen_spec (fun t => t) cl allowed base txt audio trt tra). Qed.
 
 (* play_audio: a text-less message whose only attachment is the chain's choice for the audio URL, reporting the
    language of that choice; skipped exactly when the choice is empty *)
@@ -459,6 +476,8 @@ Example say_msg_example :
   say_msg_out 3 [3; 2] 1 [115] [] [] [(3, [[97]])]
     = Some {| i_text := [115]; i_audio := [97]; i_lang := 1 |}
   /\ say_msg_out 3 [3; 2] 1 [115] [] [(3, [[]; [120]])] [] = None
+  /\ say_msg_out 2 [3; 2] 1 [115] [] [(2, [[]; [120]])] [(3, [[97]])]
+     = Some {| i_text := []; i_audio := [97]; i_lang := 3 |}
   /\ play_audio_out 3 [3; 2] 1 [112] [(3, [[113]])] = Some {| i_text := []; i_audio := [113]; i_lang := 3 |}
   /\ play_audio_out 3 [3; 2] 1 [112] [(3, [[]; [113]])] = None.
 Proof. repeat split. Qed.
